@@ -6,11 +6,12 @@
 EXTENDS PintRegistry, Json
 NoP == <<0, 1>>       \* rational 0 stands for "no parameter" (parameters are never 0 here)
 A == Single("[A]", One)  B == Single("[B]", One)
-Base == [units |-> [x \in {"a", "b", "c", "e", "kc"} |->
+Base == [units |-> [x \in {"a", "b", "c", "e", "f", "kc"} |->
             CASE x = "a" -> [base |-> TRUE, scale |-> One, ref |-> A]
               [] x = "b" -> [base |-> TRUE, scale |-> One, ref |-> B]
               [] x = "c" -> [base |-> FALSE, scale |-> R(3), ref |-> Single("a", One)]
               [] x = "e" -> [base |-> FALSE, scale |-> R(5), ref |-> Single("c", One)]
+              [] x = "f" -> [base |-> FALSE, scale |-> R(7), ref |-> Single("a", One)]      \* in system S: 7/3 c, under D: 7/4 c
               [] x = "kc" -> [base |-> FALSE, scale |-> R(20), ref |-> Single("c", One), prefixed |-> TRUE]],
          ddims |-> <<>>]
 Pool == [x \in {"R", "D", "RD", "BAD"} |->
